@@ -11,3 +11,5 @@
 ; runestr(r): the UTF-8 encoding of rune r as a string (strings.Builder.WriteRune)
 (define-sort Rune () (_ BitVec 32))
 (declare-fun runestr (Rune) Str)
+; scnt(f, q, e, i): how many of the first i nodes of stream (q, e) pass test f (instances scntZero, scntStep)
+(declare-fun scnt (Int Int Int Int) Int)
